@@ -218,6 +218,8 @@ public:
      * @return the number of segments
      */
     size_t segments_count() const {
+        if (levels.empty()) // either no data, or a single segment that is kept as the root only
+            return n > 0 ? 1 : 0;
         return levels.back().size();
     }
 
